@@ -5,6 +5,11 @@ import (
 	"time"
 )
 
+// maxStreamLen bounds the number of range buckets per series: two float64 are
+// allocated per bucket and series, and every bucket is visited when the result
+// is exported.
+const maxStreamLen = 1000000
+
 type AggregatorPlanner struct {
 	GenericPlanner
 	Duration time.Duration
@@ -18,7 +23,10 @@ func (p *AggregatorPlanner) process(ctx *shared.PlannerContext,
 	in chan []shared.LogEntry, ops aggregatorPlannerOps) (chan []shared.LogEntry, error) {
 
 	streamLen := ctx.To.Sub(ctx.From).Nanoseconds() / p.Duration.Nanoseconds()
-	if streamLen > 4000000000 {
+	if streamLen < 0 {
+		return nil, &shared.NotSupportedError{Msg: "end must not be before start"}
+	}
+	if streamLen > maxStreamLen {
 		return nil, &shared.NotSupportedError{Msg: "stream length is too large. Please try increasing duration."}
 	}
 
